@@ -36,15 +36,20 @@ def padLeft (w : Nat) (t : Text) : Text := List.replicate (w - t.length) ' ' ++ 
 
 /-! ### .prv (pv/prv.c) -/
 
+/-- the literal pieces of the two format strings of prv.c -/
+def litParaver : Text := "#Paraver (19/01/38 at 03:14):".toList
+def litNs : Text := "_ns:0:1:1(".toList
+def litHdrEnd : Text := ":1)".toList
+def litRec : Text := "2:0:1:1:".toList
+
 /-- `write_header`: `"#Paraver (19/01/38 at 03:14):%020lld_ns:0:1:1(%d:1)\n"` -/
 def prvHeader (nrows : Nat) (duration : Int) : Text :=
-  "#Paraver (19/01/38 at 03:14):".toList ++ intPad0 20 duration ++ "_ns:0:1:1(".toList ++
-    natDec nrows ++ ":1)\n".toList
+  litParaver ++ intPad0 20 duration ++ litNs ++ natDec nrows ++ litHdrEnd ++ ['\n']
 
 /-- `write_line`: `"2:0:1:1:%ld:%"PRIi64":%"PRIi64":%"PRIi64"\n"` with row,
     time, type, value.  A line of `PrvFile.lines` is (time, row, type, value). -/
 def prvLine (l : Int × Nat × Nat × Int) : Text :=
-  "2:0:1:1:".toList ++ natDec l.2.1 ++ [':'] ++ intDec l.1 ++ [':'] ++ natDec l.2.2.1 ++ [':'] ++
+  litRec ++ natDec l.2.1 ++ [':'] ++ intDec l.1 ++ [':'] ++ natDec l.2.2.1 ++ [':'] ++
     intDec l.2.2.2 ++ ['\n']
 
 def prvBody (ls : List (Int × Nat × Nat × Int)) : Text := ls.flatMap prvLine
@@ -89,8 +94,13 @@ def Prf.add (p : Prf) (index : Nat) (label : Text) : Except Err Prf :=
     if label.length ≥ maxPrfLabel then .error .other
     else .ok ⟨p.rows.set index (some label)⟩
 
+/-- `"LEVEL NODE SIZE 1\n"`, `"hostname\n"`, `"\n"`, `"LEVEL THREAD SIZE %ld\n"` -/
+def litRowNode : Text := "LEVEL NODE SIZE 1".toList
+def litRowHost : Text := "hostname".toList
+def litRowThread : Text := "LEVEL THREAD SIZE ".toList
+
 def rowText (names : List Text) : Text :=
-  "LEVEL NODE SIZE 1\nhostname\n\nLEVEL THREAD SIZE ".toList ++ natDec names.length ++ ['\n'] ++
+  litRowNode ++ ['\n'] ++ litRowHost ++ ['\n'] ++ ['\n'] ++ litRowThread ++ natDec names.length ++ ['\n'] ++
     names.flatMap (· ++ ['\n'])
 
 /-- `prf_close`: "row not set" unless every row has a label. -/
@@ -99,11 +109,13 @@ def Prf.close (p : Prf) : Except Err Text :=
   | none => .error .other
   | some names => .ok (rowText names)
 
-def Prf.addAll (p : Prf) : List (Nat × Text) → Except Err Prf
+/-- the loops of `system_connect`: `prf_add(prf, gindex, name)` for every
+    thread / CPU in gindex order -/
+def Prf.addFrom (p : Prf) (i : Nat) : List Text → Except Err Prf
   | [] => .ok p
-  | (i, l) :: r => match p.add i l with
+  | nm :: r => match p.add i nm with
     | .error e => .error e
-    | .ok p' => p'.addAll r
+    | .ok p' => p'.addFrom (i + 1) r
 
 /-- system.c `system_connect`: `"TH %d.%d"` with the application id of the
     thread's process and its TID. -/
@@ -172,16 +184,20 @@ def pcfColors : Text :=
     padRight 3 (natDec i) ++ " {".toList ++ padLeft 3 (natDec c.1) ++ ", ".toList ++
       padLeft 3 (natDec c.2.1) ++ ", ".toList ++ padLeft 3 (natDec c.2.2) ++ "}\n".toList
 
+def litEventType : Text := "EVENT_TYPE".toList
+def litValues : Text := "VALUES".toList
+
 /-- the line `"0 %-10d %s\n"` of a type -/
 def pcfTypeLine (id : Nat) (label : Text) : Text :=
-  "0 ".toList ++ padRight 10 (natDec id) ++ [' '] ++ label ++ ['\n']
+  ['0', ' '] ++ padRight 10 (natDec id) ++ [' '] ++ label ++ ['\n']
 
 /-- `"%-4"PRIi64" %s\n"` -/
 def pcfValueLine (v : Int × Text) : Text := padRight 4 (intDec v.1) ++ [' '] ++ v.2 ++ ['\n']
 
 /-- `write_type` -/
 def pcfTypeText (t : PcfType) : Text :=
-  "\n\nEVENT_TYPE\n".toList ++ pcfTypeLine t.id t.label ++ "VALUES\n".toList ++ t.values.flatMap pcfValueLine
+  ['\n', '\n'] ++ litEventType ++ ['\n'] ++ pcfTypeLine t.id t.label ++ litValues ++ ['\n'] ++
+    t.values.flatMap pcfValueLine
 
 /-- `pcf_close` -/
 def pcfText (p : Pcf) : Text := pcfHeader ++ pcfColors ++ p.flatMap pcfTypeText
@@ -361,7 +377,7 @@ def cpuPcf (e : Emu) (n : Names) : Except Err Pcf :=
 /-- thread.row / cpu.row: `system_connect` adds one name per thread / CPU at
     its gindex. -/
 def rowFileOf (names : List Text) : Except Err Text :=
-  match (Prf.open names.length).addAll (names.mapIdx fun i nm => (i, nm)) with
+  match (Prf.open names.length).addFrom 0 names with
   | .error e => .error e
   | .ok p => p.close
 
@@ -375,10 +391,104 @@ structure Files where
   cpuRow : Text
 
 def files (x : XEmu) (n : Names) : Except Err Files :=
-  match threadPcf x.emu n, cpuPcf x.emu n, rowFileOf (threadNames x.emu n), rowFileOf (cpuNames x.emu n) with
+  match threadPcf x.emu0 n, cpuPcf x.emu0 n, rowFileOf (threadNames x.emu0 n), rowFileOf (cpuNames x.emu0 n) with
   | .ok tp, .ok cp, .ok tr, .ok cr =>
     .ok { threadPrv := prvCloseText x.th, cpuPrv := prvCloseText x.cpu,
           threadPcf := pcfText tp, cpuPcf := pcfText cp, threadRow := tr, cpuRow := cr }
   | _, _, _, _ => .error .other
+
+/-! ### readers (the specification side of the round-trip theorems)
+
+Independent of the writers above: split the text at newlines, read decimal
+numbers with `Nat.ofDigitChars`. -/
+
+/-- split at every newline (the piece after the last newline is kept, as `splitOn`) -/
+def splitNl : Text → List Text
+  | [] => [[]]
+  | c :: cs =>
+    if c = '\n' then [] :: splitNl cs
+    else match splitNl cs with
+      | l :: ls => (c :: l) :: ls
+      | [] => [[c]]
+
+/-- strip a literal prefix -/
+def expect : Text → Text → Option Text
+  | [], t => some t
+  | _ :: _, [] => none
+  | c :: cs, d :: ds => if c = d then expect cs ds else none
+
+/-- a non-empty run of decimal digits -/
+def readNat (t : Text) : Option (Nat × Text) :=
+  let ds := t.takeWhile Char.isDigit
+  if ds.isEmpty then none else some (Nat.ofDigitChars 10 ds 0, t.dropWhile Char.isDigit)
+
+/-- optional minus sign, digits -/
+def readInt : Text → Option (Int × Text)
+  | '-' :: t => (readNat t).map fun nr => (-(nr.1 : Int), nr.2)
+  | t => (readNat t).map fun nr => ((nr.1 : Int), nr.2)
+
+/-- `#Paraver (…):<duration>_ns:0:1:1(<nrows>:1)` → (duration, nrows) -/
+def parsePrvHeader (l : Text) : Option (Int × Nat) := do
+  let r ← expect litParaver l
+  let (d, r) ← readInt r
+  let r ← expect litNs r
+  let (n, r) ← readNat r
+  let r ← expect litHdrEnd r
+  if r.isEmpty then some (d, n) else none
+
+/-- `2:0:1:1:<row>:<time>:<type>:<value>` → (time, row, type, value) -/
+def parsePrvLine (l : Text) : Option (Int × Nat × Nat × Int) := do
+  let r ← expect litRec l
+  let (row, r) ← readNat r
+  let r ← expect [':'] r
+  let (time, r) ← readInt r
+  let r ← expect [':'] r
+  let (ty, r) ← readNat r
+  let r ← expect [':'] r
+  let (v, r) ← readInt r
+  if r.isEmpty then some (time, row, ty, v) else none
+
+/-- A .prv file: the header line, then one record per line, every line
+    terminated by a newline. -/
+def parsePrv (t : Text) : Option ((Int × Nat) × List (Int × Nat × Nat × Int)) :=
+  match splitNl t with
+  | [] => none
+  | h :: rest =>
+    match parsePrvHeader h with
+    | none => none
+    | some hd =>
+      if rest.getLast? = some [] then (rest.dropLast.mapM parsePrvLine).map fun ls => (hd, ls)
+      else none
+
+/-- A .row file: the fixed NODE level, the THREAD level with its declared
+    size, then the names, one per line → (declared size, names). -/
+def parseRow (t : Text) : Option (Nat × List Text) :=
+  match splitNl t with
+  | l1 :: l2 :: l3 :: l4 :: rest =>
+    if l1 = litRowNode ∧ l2 = litRowHost ∧ l3 = [] ∧ rest.getLast? = some [] then
+      match expect litRowThread l4 with
+      | none => none
+      | some r => match readNat r with
+        | some (n, []) => some (n, rest.dropLast)
+        | _ => none
+    else none
+  | _ => none
+
+/-- the type a `0 <id> <label>` line declares -/
+def pcfTypeOfLine (l : Text) : Option Nat :=
+  match expect ['0', ' '] l with
+  | none => none
+  | some r => match readNat r with
+    | some (n, ' ' :: _) => some n
+    | _ => none
+
+/-- The event types a .pcf declares: every line after an `EVENT_TYPE` line
+    that reads `0 <id> …`. -/
+def pcfScan : List Text → List Nat
+  | a :: b :: r =>
+    (if a = litEventType then (pcfTypeOfLine b).toList else []) ++ pcfScan (b :: r)
+  | _ => []
+
+def pcfDeclared (t : Text) : List Nat := pcfScan (splitNl t)
 
 end Ovni.Emu.PvText
